@@ -1,0 +1,22 @@
+//go:build verif
+
+package event
+
+// VerifGet returns the replicated entry (add time, remove time, payload) of an event.
+func (st *State) VerifGet(ev Event) Value {
+	return st.subsets[ev.unitType()].Get(ev.Key())
+}
+
+// VerifAll iterates over every entry of every subset, tombstones included.
+func (st *State) VerifAll(f func(typ uint8, key string, v Value)) {
+	for typ, set := range st.subsets {
+		typ := typ
+		set.Range(nil, true, func(k string, v Value) bool {
+			f(typ, k, v)
+			return true
+		})
+	}
+}
+
+// VerifTypeOf returns the subset an event belongs to.
+func VerifTypeOf(ev Event) uint8 { return ev.unitType() }
